@@ -412,6 +412,34 @@ func possibleOpcodes(fn *ssa.Function, v ssa.Value) (ops []int64, computed bool)
 		}
 		return nil, true
 	}
+	// parameter whose every call site passes a constant opcode
+	if prm, ok := v.(*ssa.Parameter); ok && fn.Prog != nil {
+		idx := -1
+		for i, q := range fn.Params {
+			if q == prm {
+				idx = i
+			}
+		}
+		all, n := true, 0
+		var fromCalls []int64
+		for _, g := range pkgFuncs(fn) {
+			eachInstr(g, func(in ssa.Instruction) {
+				ci, ok := in.(ssa.CallInstruction)
+				if !ok || ci.Common().StaticCallee() != fn || idx < 0 || idx >= len(ci.Common().Args) {
+					return
+				}
+				n++
+				if k, ok := constInt(ci.Common().Args[idx]); ok {
+					fromCalls = append(fromCalls, k)
+				} else {
+					all = false
+				}
+			})
+		}
+		if all && n > 0 {
+			return fromCalls, true
+		}
+	}
 	// parameter guarded by comparisons with constants and a panic otherwise
 	if _, ok := v.(*ssa.Parameter); ok {
 		hasPanic := false
@@ -838,4 +866,36 @@ func ruleL5(c *Ctx) {
 		return
 	}
 	c.viol(key, c.P.Pos(call.Pos()), "frames are recycled through thread.stack's spare capacity, but the deferred pop does not reset field(s) "+strings.Join(missing, ", ")+": a later call that fails before executing an instruction reports the previous call's state (e.g. a stale pc, hence a wrong position)")
+}
+
+// pkgFuncs returns the functions (with bodies, including closures) of fn's package.
+func pkgFuncs(fn *ssa.Function) []*ssa.Function {
+	var out []*ssa.Function
+	if fn.Pkg == nil {
+		return out
+	}
+	var add func(f *ssa.Function)
+	add = func(f *ssa.Function) {
+		if f == nil || f.Blocks == nil {
+			return
+		}
+		out = append(out, f)
+		for _, a := range f.AnonFuncs {
+			add(a)
+		}
+	}
+	for _, mem := range fn.Pkg.Members {
+		switch m := mem.(type) {
+		case *ssa.Function:
+			add(m)
+		case *ssa.Type:
+			for _, t := range []types.Type{m.Type(), types.NewPointer(m.Type())} {
+				ms := fn.Prog.MethodSets.MethodSet(t)
+				for i := 0; i < ms.Len(); i++ {
+					add(fn.Prog.MethodValue(ms.At(i)))
+				}
+			}
+		}
+	}
+	return out
 }
